@@ -28,10 +28,24 @@ is a witness (`Proofs/OracleC07.lean`).
 namespace Moyo.Oracle
 open Moyo Moyo.Generated Moyo.Wyckoff
 
+/-- Cheap exact pre-test along one axis: the nearest-integer representative already violates the
+Cauchy–Schwarz bound `(d_i + n_i)² ≤ r2·((AᵀA)⁻¹)_ii` that every solution `n` satisfies. -/
+def axisFar (d b : Rat) : Bool := decide (b < ratWrap d * ratWrap d)
+
+/-- No lattice translate of `d` can be within `r2` (sufficient condition; `Proofs/OracleC07.lean`). -/
+def quickFar (gi d : Q3) (r2 : Rat) : Bool :=
+  axisFar d.x (r2 * gi.x) || axisFar d.y (r2 * gi.y) || axisFar d.z (r2 * gi.z)
+
+/-- `g·s ≡ s` modulo the lattice within squared Cartesian distance `eps2` (exact; the pre-test only
+skips the box search when it cannot succeed). -/
+def fixesSite (A : QM3) (gi : Q3) (s : Q3) (eps2 : Rat) (g : HOp) : Bool :=
+  let d := ((g.rot.applyQ s).add (g.trans.toQ 12)).sub s
+  !(quickFar gi d eps2) && withinPeriodic A gi d eps2
+
 /-- Number of operations fixing the fractional point `s` modulo the lattice, within squared
 Cartesian distance `eps2`. -/
 def stabilizerCount (A : QM3) (gi : Q3) (ops : List HOp) (s : Q3) (eps2 : Rat) : Nat :=
-  (ops.filter fun g => withinPeriodic A gi (((g.rot.applyQ s).add (g.trans.toQ 12)).sub s) eps2).length
+  (ops.filter (fixesSite A gi s eps2)).length
 
 /-! ### least squares on the coordinate subspace -/
 
